@@ -523,20 +523,20 @@ def emit_exec(inputs, body, catches, r, indent):
 
 
 class Func(S):
-    def __init__(self, name, inputs, body, catches=(), ctor=False):
-        self.name, self.inputs, self.body, self.catches, self.ctor = name, inputs, body, list(catches), ctor
+    def __init__(self, name, inputs, body, catches=(), ctor=False, getter=False):
+        self.name, self.inputs, self.body, self.catches, self.ctor, self.getter = name, inputs, body, list(catches), ctor, getter
 
     def emit(self, r, indent):
         line = r.line
-        r.w('如何' + ('新建' if self.ctor else '') + self.name + '？\n')
+        r.w(('何为' if self.getter else '如何') + ('新建' if self.ctor else '') + self.name + '？\n')
         ex = emit_exec(self.inputs, self.body, self.catches, r, indent + 1)
         strip_nl(r)
-        return '(funcdecl %d (id %d %s) %d %s)' % (line, line, hx(self.name), 3 if self.ctor else 1, ex)
+        return '(funcdecl %d (id %d %s) %d %s)' % (line, line, hx(self.name), 3 if self.ctor else (2 if self.getter else 1), ex)
 
 
 class Class(S):
-    def __init__(self, name, props, methods):
-        self.name, self.props, self.methods = name, props, methods
+    def __init__(self, name, props, methods, getters=()):
+        self.name, self.props, self.methods, self.getters = name, props, methods, list(getters)
 
     def emit(self, r, indent):
         line = r.line
@@ -552,8 +552,13 @@ class Class(S):
             r.w('    ' * (indent + 1))
             ms.append(m.emit(r, indent + 1))
             r.w('\n')
+        gs = []
+        for m in self.getters:
+            r.w('    ' * (indent + 1))
+            gs.append(m.emit(r, indent + 1))
+            r.w('\n')
         strip_nl(r)
-        return '(classdecl %d (id %d %s) (%s) (%s) ())' % (line, line, hx(self.name), ' '.join(ps), ' '.join(ms))
+        return '(classdecl %d (id %d %s) (%s) (%s) (%s))' % (line, line, hx(self.name), ' '.join(ps), ' '.join(ms), ' '.join(gs))
 
 
 class Program:
